@@ -137,6 +137,10 @@ TooLongRefused(h, k) == (k.done /\ k.toolong) =>
      /\ ~Has(h, "fn", "call") /\ k.code = <<"Client", "RequestTooLong">>
      /\ k.status = (IF k.soap THEN 500 ELSE 413) /\ k.nread = 0
 
+\* ... and ONLY such a request: a request whose declared length is within the limit is never refused for its size
+\* (whatever the block size is - it need not divide the limit, and may exceed it)
+WithinLimitRead(h, k) == (k.tr = "wsgi" /\ k.rpc /\ k.infault /\ ~k.toolong) => k.code # <<"Client", "RequestTooLong">>
+
 \* ---------------------------------------------------------------- C10 / C09
 \* "the user function is never run for a request that is answered with a fault"
 \* (unless the fault was raised by the function or after it)
